@@ -76,7 +76,7 @@ def main(pid):
         for hi, calls in enumerate(results[s]):
             for c in calls:
                 recs.append({"seed": s, "hist": hi, "text": c["text"], "opt": c["opt"], "th": c["th"], "d": c["d"],
-                             "dend": c["dend"], "same_input": c["same_input"], "base": vlib.sha(base[c["text"]][c["opt"]]) and
+                             "dend": c["dend"], "same_input": c["same_input"], "nonempty": base[c["text"]][c["opt"]] != "[]", "base": vlib.sha(base[c["text"]][c["opt"]]) and
                              __import__("hashlib").sha1(base[c["text"]][c["opt"]].encode("utf8", "surrogatepass")).hexdigest()[:16]})
     # deterministic schedules: two threads, one pre-emption at every k-th function-call event of an
     # eyecite frame (harness/sched.py); (a) many k in one process, (b) each k in a FRESH process so that
@@ -122,7 +122,7 @@ def main(pid):
             nsched += 1
             for t, d in ((x["a"], x["da"]), (x["b"], x["db"])):
                 recs.append({"seed": -1, "hist": -1, "text": idx[t], "opt": 0, "th": f"{kind}:k={x['k']}", "d": d, "dend": d,
-                             "same_input": True, "base": bd(idx[t])})
+                             "same_input": True, "nonempty": base[idx[t]][0] != "[]", "base": bd(idx[t])})
     ev.cov["deterministic_schedules"] = nsched
     ev.cov["first_call_yield_points"] = first_len
     ev.cov["yield_points_per_call"] = max((max(x["steps"]) for x in sres), default=0)
